@@ -202,7 +202,10 @@ def fuzz(prop, leg, tier, seed, root, env):
     e.pop("CARGO_NET_OFFLINE", None)
     corpus = os.path.join(root, "work", "fuzz-corpus-%d" % os.getpid())
     os.makedirs(corpus, exist_ok=True)
-    seeddir = os.path.join(root, "corpus", "fuzz-seeds")
+    # structured seeds from the harness's own generators (cursor sweep, synthetic keys)
+    seeddir = os.path.join(root, "work", "fuzz-seeds-%d" % os.getpid())
+    vfh = os.path.join(root, "harness", "target", "release", "vfh")
+    _run([vfh, "run", "C03", "dump-corpus", "--seed", str(seed), "--out", os.devnull, "--", seeddir], root, env, 300)
     cmd = ["cargo", "+nightly", "fuzz", "run", "decode_verify", corpus]
     if os.path.isdir(seeddir):
         cmd.append(seeddir)
@@ -231,6 +234,7 @@ def fuzz(prop, leg, tier, seed, root, env):
     elif rc != 0:
         rep["inconclusive"].append("fuzzer exited %s without a crash artifact: %s" % (rc, text[-400:]))
     shutil.rmtree(corpus, ignore_errors=True)
+    shutil.rmtree(seeddir, ignore_errors=True)
     rep["samples"].append({"fuzzer": "libFuzzer -fork=14", "executions": rep["evaluations"], "coverage_edges": rep["distinct_nontrivial"], "seconds": secs})
     if rep["distinct_nontrivial"] < 2 and not rep["inconclusive"] and not crashes:
         rep["inconclusive"].append("fuzzer reported no coverage")
